@@ -115,6 +115,7 @@ type Exec struct {
 	inTypeInv   bool
 	clauseHit   map[string]bool
 	aliasCache  map[*ssa.Function]map[string][]string
+	topFr       *Frame
 	rebound     map[string]map[string][]string
 }
 
